@@ -144,6 +144,45 @@ def gen_history(rnd):
     return ops, shortcut
 
 
+def _refsolver_children():
+    """pids of the reference solver processes started by this process"""
+    me = os.getpid()
+    out = []
+    for d in os.listdir("/proc"):
+        if not d.isdigit():
+            continue
+        try:
+            st = open("/proc/%s/stat" % d).read().rsplit(")", 1)[1].split()
+            if int(st[1]) == me and b"refsolver" in open("/proc/%s/cmdline" % d, "rb").read():
+                out.append(int(d))
+        except Exception:
+            pass
+    return out
+
+
+def budget_overrun_is_a_block(pids, window=0.8):
+    """A call has not returned within its budget.  It is *blocked* (a violation) only if nothing can ever answer: every
+    reference process it talks to sleeps and uses no CPU over a window (it waits for a command while pySMT waits for a
+    reply), or is gone.  A process that is still working means a slow machine: inconclusive, never a violation."""
+    import time
+
+    def snap(pid):
+        try:
+            st = open("/proc/%d/stat" % pid).read().rsplit(")", 1)[1].split()
+            return st[0], int(st[11]) + int(st[12])
+        except Exception:
+            return None
+    a = [snap(p) for p in pids]
+    time.sleep(window)
+    b = [snap(p) for p in pids]
+    for x, y in zip(a, b):
+        if x is None or y is None:
+            continue
+        if y[0] == "R" or x[1] != y[1]:
+            return False
+    return True
+
+
 def read_log(path):
     out = []
     try:
@@ -336,7 +375,11 @@ def check_history(run, ops, shortcut):
                     run.discard("reference-unknown")
                     return
                 except Timeout:
-                    fail("blocked", i, "%s did not return within its budget (reply stream out of sync?)" % op[0])
+                    if budget_overrun_is_a_block([solver.solver.pid]):
+                        fail("blocked", i, "%s does not return: the solver process waits for a command while pySMT waits for a reply "
+                                           "(reply stream out of sync?)" % op[0])
+                    else:
+                        run.discard("inconclusive-budget")
                     return
                 except Exception as e:
                     lg = read_log(log)
@@ -369,7 +412,10 @@ def check_history(run, ops, shortcut):
                 try:
                     r = with_timeout(30, lambda: getattr(env.factory, shortcut[0])(f, solver_name=name))
                 except Timeout:
-                    fail("blocked", None, "shortcut %s did not return" % shortcut[0])
+                    if budget_overrun_is_a_block(_refsolver_children()):
+                        fail("blocked", None, "shortcut %s does not return although its solver process is idle" % shortcut[0])
+                    else:
+                        run.discard("inconclusive-budget")
                     return
                 except Exception as e:
                     fail("raised", None, "shortcut %s raised %s: %s" % (shortcut[0], type(e).__name__, str(e)[:200]))
@@ -449,8 +495,11 @@ def check_broken_solver(run, rnd, mode=None, fbp=None):
             try:
                 r = with_timeout(10, lambda: solver.solve())
             except Timeout:
-                run.fail({"subcheck": "smtlibsolver:blocked", "op": "solve", "mode": mode}, case,
-                         "the solver process answers check-sat with '%s' and solve() does not return" % mode)
+                if budget_overrun_is_a_block([solver.solver.pid]):
+                    run.fail({"subcheck": "smtlibsolver:blocked", "op": "solve", "mode": mode}, case,
+                             "the solver process answers check-sat with '%s' and solve() does not return" % mode)
+                else:
+                    run.discard("inconclusive-budget")
                 return
             except Exception:
                 return
